@@ -132,6 +132,11 @@ def scn_geometry_fallbacks(c):
     opened = [e for e in ev if e[0] == 'path.open']
     c.check('non-bounds text is never turned into a box', not _box_events(c))
     c.check('non-bounds text is tried as a GeoJSON string first', len(loads) == 1 and loads[0][1] is s)
+    accepted = getattr(c, '_shape_results', [])
+    if accepted:
+        # the library decides what a geometry is: whatever shape() accepts (valid or not, simple or self-crossing) is handed on untouched
+        c.check('whenever shape() accepts the JSON value, geometry_argument returns that very geometry (no tidying, no rejection)',
+                kind == 'return' and val is accepted[-1][1])
     if kind == 'return':
         results = getattr(c, '_shape_results', [])
         c.check('a geometry result is exactly shape(<the parsed JSON>)', len(results) >= 1 and val is results[-1][1])
